@@ -228,11 +228,25 @@ class ShapeInterp:
 
     # ------------------------------------------------------------------ expressions
     def ev(self, e, env, fn, depth):
+        # the same pure expression evaluated twice denotes the same array: its data-dependent dimensions are the same
+        # symbols (the analysed copy has single-assignment temporaries inlined, so expressions repeat)
+        key = None
+        if isinstance(e, (ast.Call, ast.Subscript)) and "rng" not in ast.unparse(e):
+            cache = self.__dict__.setdefault("_memo", {})
+            key = (id(env.get("__scope__", None)), ast.unparse(e),
+                   tuple(sorted((k, repr(v)) for k, v in env.items() if isinstance(k, str) and k in ast.unparse(e))),
+                   tuple(sorted((k, repr(v)) for k, v in getattr(self, "fields", {}).items()
+                                if ("self." + k) in ast.unparse(e))))
+            if key in cache:
+                return cache[key]
         try:
-            return self._ev(e, env, fn, depth)
+            r = self._ev(e, env, fn, depth)
         except Undecided as u:
             # keep the innermost reason
-            return Opaque(str(u))
+            r = Opaque(str(u))
+        if key is not None:
+            self._memo[key] = r
+        return r
 
     def _ev(self, e, env, fn, depth):
         if isinstance(e, ast.Name):
